@@ -139,26 +139,30 @@ def new (P : LSP T K Vx Vr J) (o : Ops K Vx Vr J LLS) (nm : Num K) (cfg : Config
                xnorm := 0, gnorm := 0, residualsNorm := norm, diag := o.ones n, firstTR := true,
                firstUpdate := true, maxFev := cfg.patience * (n + 1), m := m }, residuals)
 
-/-- `update_diag` -/
-def updateDiag (o : Ops K Vx Vr J LLS) (nm : Num K) (cfg : Config K) (st : St T K Vx) (lls : LLS) :
-    Except Termination (St T K Vx) :=
+/-- numeric part of `update_diag`: `(gnorm, diag, xnorm, delta, first_update)` or a stop -/
+def updateDiagNum (o : Ops K Vx Vr J LLS) (nm : Num K) (cfg : Config K) (st : St T K Vx) (lls : LLS) :
+    Except Termination (K × Vx × K × K × Bool) :=
   match o.maxAtBScaled lls st.residualsNorm with
   | none => .error (.numerical "jacobian")
   | some g =>
-    let st := { st with gnorm := g }
     if g ≤ cfg.gtol then .error .orthogonal
     else if st.firstUpdate then
-      let (diag, xnorm) :=
-        if cfg.scaleDiag then
-          let d := o.initDiag lls
-          (d, o.enormX (o.mulDiag d st.x))
-        else (st.diag, o.enormX st.x)
+      let diag := if cfg.scaleDiag then o.initDiag lls else st.diag
+      let xnorm := if cfg.scaleDiag then o.enormX (o.mulDiag diag st.x) else o.enormX st.x
       if !nm.isFinite xnorm then .error (.numerical "subproblem x")
       else
         let delta := if xnorm = 0 then cfg.stepbound else cfg.stepbound * xnorm
-        .ok { st with diag := diag, xnorm := xnorm, delta := delta, firstUpdate := false }
-    else if cfg.scaleDiag then .ok { st with diag := o.maxDiag lls st.diag }
-    else .ok st
+        .ok (g, diag, xnorm, delta, false)
+    else if cfg.scaleDiag then .ok (g, o.maxDiag lls st.diag, st.xnorm, st.delta, st.firstUpdate)
+    else .ok (g, st.diag, st.xnorm, st.delta, st.firstUpdate)
+
+/-- `update_diag`: only `gnorm`, `diag`, `xnorm`, `delta`, `first_update` change -/
+def updateDiag (o : Ops K Vx Vr J LLS) (nm : Num K) (cfg : Config K) (st : St T K Vx) (lls : LLS) :
+    Except Termination (St T K Vx) :=
+  match updateDiagNum o nm cfg st lls with
+  | .error t => .error t
+  | .ok (g, d, xn, dl, fu) =>
+    .ok { st with gnorm := g, diag := d, xnorm := xn, delta := dl, firstUpdate := fu }
 
 /-- `reset_params_if` -/
 def resetParamsIf (P : LSP T K Vx Vr J) (st : St T K Vx) (reset : Bool) : St T K Vx :=
@@ -192,26 +196,36 @@ def actualReduction (nm : Num K) (oldNorm newNorm : K) : K :=
 /-- `ratio` -/
 def ratioOf (actual predicted : K) : K := if predicted = 0 then 0 else actual / predicted
 
-/-- update of the trust-region radius and of λ (touches `delta` and `lambda` only) -/
-def trRegion (nm : Num K) (st : St T K Vx) (pnorm ratio actual dirDer newNorm : K) : St T K Vx :=
+/-- update of the trust-region radius and of λ: the new `(delta, lambda)` -/
+def trRegionNum (nm : Num K) (st : St T K Vx) (pnorm ratio actual dirDer newNorm : K) : K × K :=
   if ratio ≤ nm.quarter then
     let temp0 := if !nm.isNegative actual then nm.half
       else nm.half * dirDer / (dirDer + nm.half * actual)
     let temp := if st.residualsNorm ≤ newNorm * nm.p1 || temp0 < nm.p1 then nm.p1 else temp0
-    { st with delta := temp * minK st.delta (pnorm * nm.ten), lambda := st.lambda / temp }
-  else if st.lambda = 0 || nm.threeQuarter ≤ ratio then
-    { st with delta := pnorm / nm.half, lambda := st.lambda * nm.half }
-  else st
+    (temp * minK st.delta (pnorm * nm.ten), st.lambda / temp)
+  else if st.lambda = 0 || nm.threeQuarter ≤ ratio then (pnorm / nm.half, st.lambda * nm.half)
+  else (st.delta, st.lambda)
+
+/-- touches `delta` and `lambda` only -/
+def trRegion (nm : Num K) (st : St T K Vx) (pnorm ratio actual dirDer newNorm : K) : St T K Vx :=
+  { st with delta := (trRegionNum nm st pnorm ratio actual dirDer newNorm).1,
+            lambda := (trRegionNum nm st pnorm ratio actual dirDer newNorm).2 }
+
+/-- the new `xnorm` after `x ← tmp`, or the numerical stop -/
+def trAcceptNum (o : Ops K Vx Vr J LLS) (nm : Num K) (cfg : Config K) (diag tmp : Vx) :
+    Except Termination K :=
+  let xnorm := if cfg.scaleDiag then o.enormX (o.mulDiag diag tmp) else o.enormX tmp
+  if !nm.isFinite xnorm then .error (.numerical "new x") else .ok xnorm
 
 /-- acceptance of a good trial: `x ← tmp`, new `xnorm`; a non-finite `xnorm` stops *before* the
 residual norm and the reported objective are updated -/
 def trAccept (o : Ops K Vx Vr J LLS) (nm : Num K) (cfg : Config K) (st : St T K Vx) (tmp : Vx)
     (newNorm : K) : Except Termination (St T K Vx) :=
-  let st := { st with x := tmp }
-  let xnorm := if cfg.scaleDiag then o.enormX (o.mulDiag st.diag st.x) else o.enormX st.x
-  let st := { st with xnorm := xnorm }
-  if !nm.isFinite xnorm then .error (.numerical "new x")
-  else .ok { st with residualsNorm := newNorm, objective := some (newNorm * newNorm * nm.half) }
+  match trAcceptNum o nm cfg st.diag tmp with
+  | .error t => .error t
+  | .ok xnorm =>
+    .ok { st with x := tmp, xnorm := xnorm, residualsNorm := newNorm,
+                  objective := some (newNorm * newNorm * nm.half) }
 
 /-- the convergence and termination tests, in source order; `none` = go on -/
 def trTests (nm : Num K) (cfg : Config K) (st : St T K Vx) (actual predicted ratio : K) :
@@ -229,35 +243,42 @@ def trTests (nm : Num K) (cfg : Config K) (st : St T K Vx) (actual predicted rat
     else if st.gnorm ≤ nm.epsmch then some (.noImprovementPossible "gtol")
     else none
 
+/-- bookkeeping before the trial is evaluated: λ from the sub-problem, the radius is clipped to the
+step length in the very first iteration -/
+def trPre (st : St T K Vx) (param : K × K × Vx) : St T K Vx :=
+  let st := { st with lambda := param.1 }
+  let st := if st.firstTR && param.2.1 < st.delta then { st with delta := param.2.1 } else st
+  { st with firstTR := false }
+
+/-- everything after the trial parameters have been applied and residuals were obtained -/
+def trAfter (P : LSP T K Vx Vr J) (o : Ops K Vx Vr J LLS) (nm : Num K) (cfg : Config K)
+    (st : St T K Vx) (tmp : Vx) (residuals : Vr) (pnorm predicted dirDer : K) : TR T K Vx Vr :=
+  let newNorm := o.enormR residuals
+  let actual := actualReduction nm st.residualsNorm newNorm
+  let ratio := ratioOf actual predicted
+  let st := trRegion nm st pnorm ratio actual dirDer newNorm
+  let good := decide (nm.p0001 ≤ ratio)
+  match (if good then trAccept o nm cfg st tmp newNorm else .ok st) with
+  | .error t => .stop { st with x := tmp } t
+  | .ok st =>
+    match trTests nm cfg st actual predicted ratio with
+    | some t => .stop (resetParamsIf P st (!good)) t
+    | none => if good then .accepted st residuals else .rejected st
+
 /-- `trust_region_iteration`; `param = (lambda, dp_norm, step)` -/
 def trustRegionIteration (P : LSP T K Vx Vr J) (o : Ops K Vx Vr J LLS) (nm : Num K) (cfg : Config K)
     (st : St T K Vx) (lls : LLS) (param : K × K × Vx) : TR T K Vx Vr :=
-  let st := { st with lambda := param.1 }
-  let pnorm := param.2.1
-  let step := param.2.2
-  match trPrelude o nm st lls pnorm step with
-  | .error t => .stop st t
+  match trPrelude o nm { st with lambda := param.1 } lls param.2.1 param.2.2 with
+  | .error t => .stop { st with lambda := param.1 } t
   | .ok (predicted, dirDer) =>
-    let st := if st.firstTR && pnorm < st.delta then { st with delta := pnorm } else st
-    let st := { st with firstTR := false }
-    let tmp := o.subStep st.x step
+    let st := trPre st param
+    let tmp := o.subStep st.x param.2.2
     let st := { st with target := P.setParams st.target tmp, evaluations := st.evaluations + 1 }
     match P.residuals st.target with
     | none => .stop st (.user "residuals")
     | some residuals =>
       if o.lenR residuals ≠ st.m then .stop st (.wrongDimensions "residuals")
-      else
-        let newNorm := o.enormR residuals
-        let actual := actualReduction nm st.residualsNorm newNorm
-        let ratio := ratioOf actual predicted
-        let st := trRegion nm st pnorm ratio actual dirDer newNorm
-        let good := decide (nm.p0001 ≤ ratio)
-        match (if good then trAccept o nm cfg st tmp newNorm else .ok st) with
-        | .error t => .stop { st with x := tmp } t
-        | .ok st =>
-          match trTests nm cfg st actual predicted ratio with
-          | some t => .stop (resetParamsIf P st (!good)) t
-          | none => if good then .accepted st residuals else .rejected st
+      else trAfter P o nm cfg st tmp residuals param.2.1 predicted dirDer
 
 /-- where the main loop stands -/
 inductive Phase (Vr LLS : Type) where
